@@ -302,6 +302,24 @@ func bpfProtoCfg(c *gCfg) *gCfg {
 	return d
 }
 
+// stripProfileLog returns a copy of the configuration without the profile rules whose action is log.
+func stripProfileLog(c *gCfg) *gCfg {
+	d := parseCfgLine(c.line())
+	d.Debug = c.Debug
+	for _, ps := range []*[]gPolicy{&d.P, &d.HPR} {
+		for j := range *ps {
+			var keep []gRule
+			for _, r := range (*ps)[j].Rules {
+				if strings.ToLower(r.Action) != "log" {
+					keep = append(keep, r)
+				}
+			}
+			(*ps)[j].Rules = keep
+		}
+	}
+	return d
+}
+
 func matches(o outcome, ex obs) bool {
 	if o.kind != ex.kind || o.target != ex.target {
 		return false
@@ -325,8 +343,12 @@ func exec(h *rt.H, s *state, op string) string {
 			// oracle: compiling a valid configuration never fails or crashes
 			if f.valid {
 				sig := "compile-" + res
-				if f.profileLog {
-					sig = "profile-log-" + res
+				if f.profileLog && res == "panic" {
+					// attribute to the known finding only if the SAME configuration without the
+					// profile rules whose action is log compiles
+					if _, r2 := build(stripProfileLog(s.cfg)); r2 == "ok" {
+						sig = "profile-log-panic"
+					}
 				}
 				h.OracleFail(sig, "the real polprog.Builder "+res+"s on a valid policy configuration", map[string]any{"prog": op})
 			}
